@@ -10,25 +10,27 @@ import MuscleModel.Generated.Constants
 Property theorems only (lemmas: `Gateway/Proofs*.lean`).  The model (`Gateway/*.lean`) mirrors the
 call loops of the real gateways — `DoOutputImplementation`/`SendMoreData`,
 `DoInputImplementation`/`ReceiveMoreData` with the scratch-buffer branch, the text line splitter, the
-raw and SLIP gateways — over a *scheduled transport*: a byte queue, and for every `DoOutput(maxBytes)` /
-`DoInput(maxBytes)` call the list of byte counts its `Write`s/`Read`s obtain (0 = would block).  The tie
-to the C++ code is the correspondence run of engine `gw`, which executes the same definitions.
+raw and SLIP gateways, the WebSocket frame header — over a *scheduled transport*: a byte queue, and for
+every `DoOutput(maxBytes)` / `DoInput(maxBytes)` call the list of byte counts its `Write`s/`Read`s obtain
+(0 = would block).  The tie to the C++ code is the correspondence run of engine `gw`, which executes the
+same definitions.
 
-`run G s evs` executes ANY list of events (`Ev.add u` = `AddOutgoingMessage`, `Ev.output c`, `Ev.input c`,
-each call `c` with its own `maxBytes` and grants), i.e. every interleaving and every segmentation.
-
-Hypotheses, all explicit: Messages are C01-well-formed, within the nesting limit and the size limits
-(`frameOK`); text lines contain no CR/LF/NUL (`cleanLine`) and the terminator is CR LF, LF or CR;
-SLIP/raw chunks are non-empty (an empty chunk makes the real sender drop the rest of its Message:
-reported finding, mirrored by the model as `rawEff`); the link is *drained* at the end (nothing in
-transit, nothing pending: "the grants suffice").  zlib, templating and the WebSocket handshake are
-outside these theorems (validated by the correspondence run and the direct oracle only).
+* `rxCalls R s cs q` — ANY list `cs` of input calls (each with its own `maxBytes` and grants) on a transport
+  holding `q`; `txCalls T fuel t cs []` — ANY list of output calls; `run G s evs` — ANY list of events
+  (`Ev.add u` = `AddOutgoingMessage`, `Ev.output c`, `Ev.input c`): every interleaving and segmentation.
+* Hypotheses, all explicit: Messages are C01-well-formed, within the nesting limit and the size limits
+  (`frameOKZ`/`frameOK`); zlib is an opaque pair of functions with `inflate (deflate x) = x` (`CodecOK`; the
+  history dependence of the real deflate stream is outside the model — validated by the correspondence run
+  and the direct oracle, incl. the F24 regression); text lines contain no CR/LF/NUL (`cleanLine`) and the
+  terminator is CR LF, LF or CR; an EMPTY raw/SLIP chunk ends its Message (the real sender drops the rest:
+  open finding C03-empty-chunk, mirrored as `rawEff`/`takeWhile`); "drained" = nothing in transit, nothing
+  pending.  Templating and the WebSocket handshake / receive loop are outside these theorems.
 -/
 
 namespace Muscle.Props.C03
 open Muscle Muscle.Wire Muscle.Gen Muscle.Gateway
 
-/-! ## the generic statement, proved once -/
+/-! ## the generic statements, proved once -/
 
 /-- **The receiver's state is a function of the consumed byte prefix alone.**  For any receiver whose single
     `Read` results refine a byte-wise machine `step` (`RxRefines`): one `DoInput` call — any `maxBytes`, any
@@ -41,25 +43,57 @@ theorem rx_state_is_prefix_fn {σ υ ω : Type} {R : RxM σ υ} {step : σ → U
   let ⟨x, h1, h2, h3, _⟩ := rxCall_refines H s c q hi hq
   ⟨x, h1, h2, h3⟩
 
+/-- **Input: any chunking of the byte stream gives the same sequence.**  Two arbitrary lists of `DoInput` calls
+    (different numbers of calls, `maxBytes`, bytes per `Read`, would-blocks) that both empty the transport end in
+    the same receiver state and have delivered the same units — those of feeding the bytes one at a time. -/
+theorem input_chunking_independent {σ υ ω : Type} {R : RxM σ υ} {step : σ → UInt8 → σ × List ω} {proj : List υ → List ω}
+    {Inv : σ → Prop} {ok : UInt8 → Prop} (H : RxRefines R step proj Inv ok)
+    (cs1 cs2 : List Call) (s : σ) (q : Bytes) (hi : Inv s) (hq : ∀ b ∈ q, ok b)
+    (h1 : (rxCalls R s cs1 q []).2.1 = []) (h2 : (rxCalls R s cs2 q []).2.1 = []) :
+    (rxCalls R s cs1 q []).1 = (rxCalls R s cs2 q []).1 ∧
+    proj (rxCalls R s cs1 q []).2.2 = proj (rxCalls R s cs2 q []).2.2 ∧
+    proj (rxCalls R s cs1 q []).2.2 = (feedBy step s q).2 := by
+  obtain ⟨a1, a2⟩ := input_any_chunking H cs1 s q hi hq h1
+  obtain ⟨b1, b2⟩ := input_any_chunking H cs2 s q hi hq h2
+  exact ⟨by rw [a1, b1], by rw [a2, b2], a2⟩
+
+/-- **Output: any short-write schedule emits the same bytes.**  Whatever the list of `DoOutput` calls, what has been
+    written is a prefix of the sender's pending bytes; two schedules that both leave nothing pending have written
+    the same bytes — exactly the pending bytes. -/
+theorem output_schedule_independent {τ ι : Type} {T : TxM τ} {enqueue : τ → ι → τ} {pending : τ → Bytes} {enc : ι → Bytes}
+    (H : TxRefines T enqueue pending enc) (fuel : τ → Call → Nat) (cs1 cs2 : List Call) (t : τ)
+    (h1 : pending (txCalls T fuel t cs1 []).1 = []) (h2 : pending (txCalls T fuel t cs2 []).1 = []) :
+    (∃ rest, pending t = (txCalls T fuel t cs1 []).2 ++ rest) ∧
+    (txCalls T fuel t cs1 []).2 = (txCalls T fuel t cs2 []).2 ∧ (txCalls T fuel t cs1 []).2 = pending t := by
+  have a := output_any_schedule H fuel cs1 t
+  have b := output_any_schedule H fuel cs2 t
+  exact ⟨a.1, by rw [a.2 h1, b.2 h2], a.2 h1⟩
+
 /-- **…for whole histories**: after any interleaving of queueing, output calls and input calls, every byte of
     the sent stream is consumed, in transit, or pending (in this order), and receiver state and deliveries are
     those of feeding the consumed prefix byte by byte.  Nothing is lost, duplicated or reordered at any time. -/
 theorem interleave_independent {τ σ ι υ ω : Type} {G : Gw τ σ ι υ} {step : σ → UInt8 → σ × List ω} {proj : List υ → List ω}
     {Inv : σ → Prop} {ok : UInt8 → Prop} {pending : τ → Bytes} {enc : ι → Bytes}
-    (HR : RxRefines G.rx step proj Inv ok) (HT : TxRefines G.tx G.enqueue pending enc) (hok : ∀ x b, b ∈ enc x → ok b)
-    (t0 : τ) (r0 : σ) (h0 : pending t0 = []) (hi : Inv r0) (evs : List (Ev ι)) :
+    (HR : RxRefines G.rx step proj Inv ok) (HT : TxRefines G.tx G.enqueue pending enc)
+    (t0 : τ) (r0 : σ) (h0 : pending t0 = []) (hi : Inv r0) (evs : List (Ev ι)) (hok : ∀ x ∈ addsOf evs, ∀ b ∈ enc x, ok b) :
     ∃ consumed, streamOf enc (addsOf evs) =
         consumed ++ ((run G { t := t0, q := [], r := r0, out := [] } evs).q ++ pending (run G { t := t0, q := [], r := r0, out := [] } evs).t) ∧
       (run G { t := t0, q := [], r := r0, out := [] } evs).r = (feedBy step r0 consumed).1 ∧
       proj (run G { t := t0, q := [], r := r0, out := [] } evs).out = (feedBy step r0 consumed).2 :=
-  deliveries_are_prefix_fn HR HT hok t0 r0 h0 hi evs
+  deliveries_are_prefix_fn HR HT t0 r0 h0 hi evs hok
 
-/-! ## binary gateway (`MessageIOGateway`, default encoding) -/
+/-! ## binary gateway (`MessageIOGateway`), default encoding and zlib-flagged frames -/
 
 /-- A `Read` result of any size that fits what `ReceiveMoreData` asked for does what its bytes do one at a time. -/
 theorem binary_rx_incremental (P : BinParams) (hP : 0 < P.hs ∧ P.hs < P.scratch) :
     RxRefines (binRx P) (binStep P) id (binInv P) (fun _ => True) :=
   binRx_refines P hP
+
+/-- the sender, for every outgoing encoding level: what a call appends to the transport is exactly what leaves the
+    sender (`DoOutputImplementation`/`SendMoreData`, any `maxBytes`, any short writes) -/
+theorem binary_tx_conserves (P : BinParams) (lvl : Nat) :
+    TxRefines (binTx P lvl) (fun t m => { t with queue := t.queue ++ [m] }) (binPending P lvl) (frameZ P lvl) :=
+  binTx_refines P lvl
 
 /-- header + flattened Message, fed to the receiver in any segmentation, yields that Message and the idle state -/
 theorem frame_roundtrip (P : BinParams) (hP : P.OK) (m : Msg) (hm : frameOK P m) (rest : Bytes) :
@@ -67,22 +101,51 @@ theorem frame_roundtrip (P : BinParams) (hP : P.OK) (m : Msg) (hm : frameOK P m)
       ((feedBy (binStep P) (binInitRx P) rest).1, tripMsg m :: (feedBy (binStep P) (binInitRx P) rest).2) :=
   bin_frame_roundtrip P hP m hm rest
 
-/-- **Segmentation independence, binary gateway**: whatever the events (interleaving, `maxBytes`, grants), if the
-    link ends drained the receiver has delivered exactly the Messages queued, in order, each as C01's round trip
-    of it, and reports no error. -/
-theorem segmentation_independent_binary (P : BinParams) (hP : P.OK) (evs : List (Ev Msg))
-    (hm : ∀ m ∈ addsOf evs, frameOK P m)
-    (hq : (run (binGw P) { t := binInitTx, q := [], r := binInitRx P, out := [] } evs).q = [])
-    (hp : binPending (run (binGw P) { t := binInitTx, q := [], r := binInitRx P, out := [] } evs).t = []) :
-    (run (binGw P) { t := binInitTx, q := [], r := binInitRx P, out := [] } evs).out = (addsOf evs).map tripMsg ∧
-    (run (binGw P) { t := binInitTx, q := [], r := binInitRx P, out := [] } evs).r = binInitRx P := by
+/-- the same for the frame built with outgoing level `lvl` ∈ 0..9 — compressed and flagged when the buffer has at least
+    32 bytes, plain otherwise — for ANY codec with `inflate (deflate x) = x` -/
+theorem frame_roundtrip_zlib (P : BinParams) (hP : P.OK) (hC : CodecOK P) (lvl : Nat) (hl : lvl ≤ 9) (m : Msg)
+    (hm : frameOKZ P lvl m) (rest : Bytes) :
+    feedBy (binStep P) (binInitRx P) (frameZ P lvl m ++ rest) =
+      ((feedBy (binStep P) (binInitRx P) rest).1, tripMsg m :: (feedBy (binStep P) (binInitRx P) rest).2) :=
+  bin_frameZ_roundtrip P hP hC lvl hl m hm rest
+
+/-- **Input, binary gateway**: the frames of `ms` on the transport, ANY list of input calls that empties it:
+    exactly `ms` (C01 round trip of each) is delivered, in order, and the receiver is idle without error. -/
+theorem binary_input_any_chunking (P : BinParams) (hP : P.OK) (hC : CodecOK P) (lvl : Nat) (hl : lvl ≤ 9)
+    (ms : List Msg) (hm : ∀ m ∈ ms, frameOKZ P lvl m) (cs : List Call)
+    (hall : (rxCalls (binRx P) (binInitRx P) cs (streamOf (frameZ P lvl) ms) []).2.1 = []) :
+    (rxCalls (binRx P) (binInitRx P) cs (streamOf (frameZ P lvl) ms) []).2.2 = ms.map tripMsg ∧
+    (rxCalls (binRx P) (binInitRx P) cs (streamOf (frameZ P lvl) ms) []).1 = binInitRx P := by
   have hP' : 0 < P.hs ∧ P.hs < P.scratch := by rw [hP.hs8]; exact ⟨by omega, hP.scratch⟩
   have hinit : binInv P (binInitRx P) := ⟨fun _ => rfl, fun h => by simp [binInitRx, hP.hs8] at h⟩
-  obtain ⟨c, h1, h2, h3⟩ := deliveries_are_prefix_fn (G := binGw P) (binRx_refines P hP') binTx_refines
-    (fun _ _ _ => trivial) binInitTx (binInitRx P) rfl hinit evs
+  obtain ⟨a1, a2⟩ := input_any_chunking (binRx_refines P hP') cs (binInitRx P) _ hinit (fun _ _ => trivial) hall
+  rw [bin_stream_roundtrip P hP hC lvl hl ms hm] at a1 a2
+  exact ⟨a2, a1⟩
+
+/-- **Output, binary gateway**: ANY list of output calls that leaves nothing pending has written exactly the frames of
+    the queued Messages, back to back. -/
+theorem binary_output_any_schedule (P : BinParams) (lvl : Nat) (ms : List Msg) (fuel : BinTx → Call → Nat) (cs : List Call)
+    (hp : binPending P lvl (txCalls (binTx P lvl) fuel { cur := [], queue := ms } cs []).1 = []) :
+    (txCalls (binTx P lvl) fuel { cur := [], queue := ms } cs []).2 = binQueueBytes P lvl ms := by
+  have h := (output_any_schedule (binTx_refines P lvl) fuel cs { cur := [], queue := ms }).2 hp
+  rw [h]; simp [binPending]
+
+/-- **Segmentation independence, binary gateway**: whatever the events (interleaving, `maxBytes`, grants), if the
+    link ends drained the receiver has delivered exactly the Messages queued, in order, each as C01's round trip
+    of it, and is idle without error — for every outgoing encoding level and any codec satisfying `CodecOK`. -/
+theorem segmentation_independent_binary (P : BinParams) (hP : P.OK) (hC : CodecOK P) (lvl : Nat) (hl : lvl ≤ 9)
+    (evs : List (Ev Msg)) (hm : ∀ m ∈ addsOf evs, frameOKZ P lvl m)
+    (hq : (run (binGw P lvl) { t := binInitTx, q := [], r := binInitRx P, out := [] } evs).q = [])
+    (hp : binPending P lvl (run (binGw P lvl) { t := binInitTx, q := [], r := binInitRx P, out := [] } evs).t = []) :
+    (run (binGw P lvl) { t := binInitTx, q := [], r := binInitRx P, out := [] } evs).out = (addsOf evs).map tripMsg ∧
+    (run (binGw P lvl) { t := binInitTx, q := [], r := binInitRx P, out := [] } evs).r = binInitRx P := by
+  have hP' : 0 < P.hs ∧ P.hs < P.scratch := by rw [hP.hs8]; exact ⟨by omega, hP.scratch⟩
+  have hinit : binInv P (binInitRx P) := ⟨fun _ => rfl, fun h => by simp [binInitRx, hP.hs8] at h⟩
+  obtain ⟨c, h1, h2, h3⟩ := deliveries_are_prefix_fn (G := binGw P lvl) (binRx_refines P hP') (binTx_refines P lvl)
+    binInitTx (binInitRx P) rfl hinit evs (fun _ _ _ _ => trivial)
   rw [hq, hp] at h1
   simp only [List.append_nil] at h1
-  rw [← h1, bin_stream_roundtrip P hP _ hm] at h2 h3
+  rw [← h1, bin_stream_roundtrip P hP hC lvl hl _ hm] at h2 h3
   exact ⟨h3, h2⟩
 
 /-! ## plain-text gateway -/
@@ -101,9 +164,43 @@ theorem text_roundtrip (eol : Bytes) (he : IsEol eol) (ls : List Bytes) (h : ∀
   simp only [List.append_nil] at e
   simp [textInitRx, e, feedBy]
 
+/-- the text sender conserves bytes under every schedule (within its recursion limit per call) -/
+theorem text_tx_conserves (eol : Bytes) :
+    TxRefines (textTx eol) (fun t m => { t with queue := t.queue ++ [m] }) (textPending eol) (textLinesBytes eol) :=
+  textTx_refines eol
+
+/-- **Input, text gateway**: clean lines with their terminators on the transport, ANY list of input calls that empties
+    it (any read sizes, a terminator split across reads): exactly those lines are delivered, in order. -/
+theorem text_input_any_chunking (readSize : Nat) (eol : Bytes) (he : IsEol eol) (ls : List Bytes) (h : ∀ l ∈ ls, cleanLine l)
+    (cs : List Call) (hall : (rxCalls (textRx readSize) textInitRx cs (textLinesBytes eol ls) []).2.1 = []) :
+    (rxCalls (textRx readSize) textInitRx cs (textLinesBytes eol ls) []).2.2 = ls := by
+  obtain ⟨_, a2⟩ := input_any_chunking (textRx_refines readSize) cs textInitRx _ trivial
+    (textLinesBytes_nonzero eol he ls h) hall
+  rw [text_roundtrip eol he ls h] at a2
+  exact a2
+
+/-- **Segmentation independence, text gateway**: any events; drained link ⇒ the delivered lines are exactly the lines of
+    the queued Messages, in order (how they are grouped into delivered Messages depends on the reads; the lines do not). -/
+theorem segmentation_independent_text (readSize limit : Nat) (eol : Bytes) (he : IsEol eol) (evs : List (Ev (List Bytes)))
+    (hc : ∀ m ∈ addsOf evs, ∀ l ∈ m, cleanLine l)
+    (hq : (run (textGw readSize limit eol) { t := textInitTx, q := [], r := textInitRx, out := [] } evs).q = [])
+    (hp : textPending eol (run (textGw readSize limit eol) { t := textInitTx, q := [], r := textInitRx, out := [] } evs).t = []) :
+    (run (textGw readSize limit eol) { t := textInitTx, q := [], r := textInitRx, out := [] } evs).out = (addsOf evs).flatten := by
+  have hok : ∀ x ∈ addsOf evs, ∀ b ∈ textLinesBytes eol x, b ≠ 0 :=
+    fun x hx => textLinesBytes_nonzero eol he x (hc x hx)
+  have h := drained_delivers_all (G := textGw readSize limit eol) (textRx_refines readSize) (textTx_refines eol)
+    textInitTx textInitRx rfl trivial evs hok hq hp
+  have hclean : ∀ l ∈ (addsOf evs).flatten, cleanLine l := by
+    intro l hl
+    obtain ⟨m, hm, hlm⟩ := List.mem_flatten.mp hl
+    exact hc m hm l hlm
+  rw [streamOf_textLines, text_roundtrip eol he _ hclean] at h
+  exact h
+
 /-! ## SLIP and raw -/
 
-/-- `SLIPEncodeBytes x` decodes to exactly the frame `x` (nothing for the empty chunk) and leaves the decoder idle -/
+/-- **SLIP escape/unescape round trip, for all byte strings**: `SLIPEncodeBytes x` decodes to exactly the frame `x`
+    (nothing for the empty chunk) and leaves the decoder idle -/
 theorem slip_roundtrip (K : SlipK) (hK : K.WF) (x rest : Bytes) :
     feedBy (slipByte K) slipIdle (slipEncode K x ++ rest) =
       ((feedBy (slipByte K) slipIdle rest).1, (if x.isEmpty then [] else [x]) ++ (feedBy (slipByte K) slipIdle rest).2) :=
@@ -119,10 +216,41 @@ theorem slip_constants_wf :
     SlipK.WF { END := UInt8.ofNat slipEnd, ESC := UInt8.ofNat slipEsc, ESC_END := UInt8.ofNat slipEscEnd, ESC_ESC := UInt8.ofNat slipEscEsc } :=
   ⟨by decide, by decide, by decide, by decide⟩
 
+/-- **Input, SLIP**: the encodings of non-empty chunks on the transport, ANY list of input calls that empties it
+    (an ESC and its companion in different reads included): exactly those chunks are delivered. -/
+theorem slip_input_any_chunking (K : SlipK) (hK : K.WF) (readSize : Nat) (xs : List Bytes) (hx : ∀ x ∈ xs, x.isEmpty = false)
+    (cs : List Call) (hall : (rxCalls (slipRx K readSize) slipIdle cs ((xs.map (slipEncode K)).flatten) []).2.1 = []) :
+    (rxCalls (slipRx K readSize) slipIdle cs ((xs.map (slipEncode K)).flatten) []).2.2 = xs := by
+  obtain ⟨_, a2⟩ := input_any_chunking (slipRx_refines K readSize) cs slipIdle _ trivial (fun _ _ => trivial) hall
+  have := slip_chunks_roundtrip K hK xs [] hx
+  simp only [List.append_nil, feedBy] at this
+  rw [this] at a2
+  simpa using a2
+
+/-- **Segmentation independence, SLIP gateway**: any events; drained link ⇒ the delivered frames are exactly the chunks of
+    the queued Messages (each Message up to its first empty chunk), in order. -/
+theorem segmentation_independent_slip (K : SlipK) (hK : K.WF) (readSize : Nat) (evs : List (Ev (List Bytes)))
+    (hq : (run (slipGw K readSize) { t := rawInitTx, q := [], r := slipInitRx, out := [] } evs).q = [])
+    (hp : rawPending (run (slipGw K readSize) { t := rawInitTx, q := [], r := slipInitRx, out := [] } evs).t = []) :
+    (run (slipGw K readSize) { t := rawInitTx, q := [], r := slipInitRx, out := [] } evs).out =
+      ((addsOf evs).map (fun m => m.takeWhile (fun c => !c.isEmpty))).flatten := by
+  have h := drained_delivers_all (G := slipGw K readSize) (slipRx_refines K readSize) (rawTx_refines (slipMsg K))
+    rawInitTx slipInitRx rfl trivial evs (fun _ _ _ _ => trivial) hq hp
+  have hs := slip_stream_roundtrip K hK (addsOf evs)
+  simp only [slipIdle] at hs
+  simp only [slipInitRx] at h
+  rw [hs] at h
+  exact h
+
 /-- raw gateway, both receive modes: the delivered chunks, concatenated, are the bytes consumed, however they were read -/
 theorem raw_rx_incremental (readSize minChunk : Nat) :
     RxRefines (rawRx readSize minChunk) (rawStep readSize minChunk) List.flatten (rawInv minChunk) (fun _ => True) :=
   rawRx_refines readSize minChunk
+
+/-- the raw sender (also used by SLIP, with `enc` = the SLIP encoding of the chunks) conserves bytes under every schedule -/
+theorem raw_tx_conserves (enc : List Bytes → List Bytes) :
+    TxRefines rawTx (fun t m => { t with queue := t.queue ++ [enc m] }) rawPending (fun m => rawEff (enc m)) :=
+  rawTx_refines enc
 
 /-- **Segmentation independence, raw gateway (immediate-forward mode)**: if the link ends drained, the delivered
     bytes are exactly the bytes of the queued chunks (up to the first empty chunk of each Message), in order. -/
@@ -132,27 +260,45 @@ theorem segmentation_independent_raw (readSize : Nat) (evs : List (Ev (List Byte
     (run (rawGw readSize 0) { t := rawInitTx, q := [], r := rawInitRx, out := [] } evs).out.flatten =
       streamOf rawEff (addsOf evs) := by
   have h := drained_delivers_all (G := rawGw readSize 0) (rawRx_refines readSize 0) (rawTx_refines id)
-    (fun _ _ _ => trivial) rawInitTx rawInitRx rfl (fun h => absurd rfl h) evs hq hp
+    rawInitTx rawInitRx rfl (fun h => absurd rfl h) evs (fun _ _ _ _ => trivial) hq hp
   rw [h, rawRead0]
   rfl
 
-/-- senders: what a call appends to the transport is exactly what leaves the sender, for every `maxBytes` and grants -/
-theorem tx_conserves_binary : TxRefines binTx (fun t m => { t with queue := t.queue ++ [m] }) binPending frame :=
-  binTx_refines
+/-! ## WebSocket frame kernels (`CreateReplyFrame` vs. the header logic and unmasking loop of `DoInputImplementation`) -/
 
-/-! ## WebSocket kernels -/
-
+/-- masking is an involution, for every key and every starting offset -/
 theorem ws_mask_involutive (key : Bytes) (i : Nat) (p : Bytes) : wsMask key i (wsMask key i p) = p :=
   wsMask_involutive key i p
+
+/-- the length field round-trips in its 7-bit, 16-bit (126) and 64-bit (127) form, with or without the mask bit -/
+theorem ws_len_field_roundtrip (mask : Nat) (hm : mask = 0 ∨ mask = 128) (n : Nat) (hn : n < 9223372036854775808) (rest : Bytes) :
+    ∃ b1 ext, wsLenField mask n = b1 :: ext ∧ wsReadLen b1 (ext ++ rest) = some (n, rest) :=
+  let ⟨b1, ext, h1, h2, _, _⟩ := wsReadLen_lenField mask hm n hn rest
+  ⟨b1, ext, h1, h2⟩
+
+/-- a server's frame (unmasked), any opcode, any payload up to the receiver's 10 MB limit, any of the three length forms -/
+theorem ws_server_frame_roundtrip (op : Nat) (hop : op < 16) (p : Bytes) (hp : p.length ≤ 10485760) (rest : Bytes) :
+    wsDecodeFrame false (wsServerFrame op p ++ rest) = some (op, true, p, rest) :=
+  ws_server_frame_decode op hop p hp rest
+
+/-- a client's frame, masked with ANY 4-byte key written in the order it is applied -/
+theorem ws_client_frame_roundtrip (op : Nat) (hop : op < 16) (key : Bytes) (hk : key.length = 4) (p : Bytes)
+    (hp : p.length ≤ 10485760) (rest : Bytes) :
+    wsDecodeFrame true (wsClientFrame op key p ++ rest) = some (op, true, p, rest) :=
+  ws_client_frame_decode op hop key hk p hp rest
 
 /-! ## non-vacuity -/
 
 /-- the parameters of the compiled code satisfy `BinParams.OK` -/
-example : BinParams.OK { hs := gwHeaderSize, scratch := gwScratchRecvBufferSize, maxIn := 4294967295, mx := 256, inflate := fun _ _ => none } :=
+example : BinParams.OK { hs := gwHeaderSize, scratch := gwScratchRecvBufferSize, maxIn := 4294967295, mx := 256, deflate := (fun _ x => x), inflate := (fun _ _ => none) } :=
   ⟨rfl, by decide⟩
 
-/-- the hypotheses are satisfiable: an empty Message is `frameOK`, and the empty history is drained -/
-example : frameOK { hs := 8, scratch := 2048, maxIn := 4294967295, mx := 256, inflate := fun _ _ => none } (.mk 7 []) := by
+/-- `CodecOK` is satisfiable (the identity codec), so the zlib theorems are not vacuous -/
+example : CodecOK { hs := 8, scratch := 2048, maxIn := 4294967295, mx := 256, deflate := (fun _ x => x), inflate := (fun _ b => some b) } := by
+  intro lvl x _ _; rfl
+
+/-- the hypotheses are satisfiable: an empty Message is `frameOK` -/
+example : frameOK { hs := 8, scratch := 2048, maxIn := 4294967295, mx := 256, deflate := (fun _ x => x), inflate := (fun _ _ => none) } (.mk 7 []) := by
   refine ⟨?_, ?_, ?_, ?_⟩
   · simp [wfMsg, wfFields, countFlat, U32]
   · simp [depthMsg, depthFields]
@@ -162,11 +308,11 @@ example : frameOK { hs := 8, scratch := 2048, maxIn := 4294967295, mx := 256, in
 /-- a non-trivial drained history: queue a Message, one whole-buffer output call — the transport then holds
     exactly its frame and the sender has nothing pending -/
 example :
-    let P : BinParams := { hs := 8, scratch := 2048, maxIn := 4294967295, mx := 256, inflate := fun _ _ => none }
-    let s := run (binGw P) { t := binInitTx, q := [], r := binInitRx P, out := [] }
+    let P : BinParams := { hs := 8, scratch := 2048, maxIn := 4294967295, mx := 256, deflate := (fun _ x => x), inflate := (fun _ _ => none) }
+    let s := run (binGw P 0) { t := binInitTx, q := [], r := binInitRx P, out := [] }
       [.add (.mk 7 []), .output { maxBytes := 4294967295, grants := none }]
-    s.q = frame (.mk 7 []) ∧ binPending s.t = [] := by
-  simp [run, stepSys, binGw, binInitTx, txLoop, callFuel, binTx, binSettle, nextGrant, binPending, binQueueBytes, frame,
+    s.q = frame (.mk 7 []) ∧ binPending P 0 s.t = [] := by
+  simp [run, stepSys, binGw, binInitTx, txLoop, callFuel, binTx, binSettle, nextGrant, binPending, binQueueBytes, frame, frameZ, frameOf,
     encode, encMsg, encFields, countFlat]
   exact List.take_of_length_le (by simp)
 
@@ -175,5 +321,9 @@ example : (textScan [10, 0x62, 13] [] (textScan [0x61, 13] [] textInitRx []).1 [
     ∧ (textScan [0x61, 13] [] textInitRx []).2 = [[0x61]] := by decide
 
 example : cleanLine [0x61, 0x62] := by intro b hb; simp at hb; rcases hb with h | h <;> subst h <;> decide
+
+/-- the three length forms really occur: 125 → 7-bit, 126 → 16-bit, 65536 → 64-bit -/
+example : (wsLenField 0 125).length = 1 ∧ (wsLenField 0 126).length = 3 ∧ (wsLenField 128 65536).length = 9 := by
+  simp [wsLenField, beN]
 
 end Muscle.Props.C03
